@@ -244,6 +244,7 @@ def w_extremes(cfg, tier):
     col.encoded(PauliErrorModel.generate, PauliErrorModel.probability_distribution, pem.fast_choice)
     for pval in (0, 1):
         eng = Engine(name=f'{cfg}#p{pval}', max_paths=70000)
+        eng.format_mode = 'placeholder'      # labels of models with symbolic directions are logging only
         with eng:
             rx, ry = eng.real('rx', 0, 1), eng.real('ry', 0, 1)
             rz = SymReal(1 - rx.t - ry.t)
@@ -416,8 +417,82 @@ def w_bposd(cfg, tier):
     return col.result()
 
 
+def w_cache(cfg, tier):
+    """Two error models used one after the other on the same code and error rate (the real, cached
+    probability_distribution): the second model must get ITS OWN distribution, and the arrays handed out
+    for the first must be unchanged afterwards."""
+    pem, bem, bpd = _install()
+    import panqec.codes as pc
+    PauliErrorModel = pem.PauliErrorModel
+    parts = cfg.split(' ')
+    cls_name, size, name, axis = common.parse_cfg(parts[1])
+    axis2 = parts[2]
+    code = getattr(pc, cls_name)(*size)
+    n = code.n
+    col = hz.Collector(cfg)
+    col.encoded(PauliErrorModel.probability_distribution, PauliErrorModel.__init__, PauliErrorModel.label)
+    qc = list(code.qubit_coordinates)
+    kwA = {'deformation_axis': axis} if axis else {}
+    kwB = {'deformation_axis': axis2} if axis2 != '-' else {}
+    nameB = name if axis2 != 'none' else None
+    dA = [code.get_deformation(q, name, **kwA) for q in qc]
+    dB = [code.get_deformation(q, nameB, **kwB) if nameB else {s_: s_ for s_ in 'XYZ'} for q in qc]
+    pval = 0.25
+    eng = Engine(name=cfg)
+    eng.format_mode = 'placeholder'
+    with eng:
+        rx, ry = eng.real('rx', 0, 1), eng.real('ry', 0, 1)
+        rz = SymReal(1 - rx.t - ry.t)
+        sx, sy = eng.real('sx', 0, 1), eng.real('sy', 0, 1)
+        sz = SymReal(1 - sx.t - sy.t)
+        eng.assume_base(rz.t >= 0)
+        eng.assume_base(sz.t >= 0)
+
+        def fn():
+            PauliErrorModel.probability_distribution.cache_clear()
+            A = PauliErrorModel.__new__(PauliErrorModel)
+            A._direction, A._deformation_name, A._deformation_kwargs = (rx, ry, rz), name, dict(kwA)
+            B = PauliErrorModel.__new__(PauliErrorModel)
+            B._direction, B._deformation_name, B._deformation_kwargs = (sx, sy, sz), nameB, dict(kwB)
+            da = A.probability_distribution(code, pval)
+            snap = [list(np.asarray(v).reshape(-1)) for v in da]
+            db = B.probability_distribution(code, pval)
+            da2 = A.probability_distribution(code, pval)
+            return snap, db, da, da2
+        ps = eng.explore(fn)
+    PauliErrorModel.probability_distribution.cache_clear()
+    col.absorb(eng)
+
+    def spec_for(r, dm):
+        base_ = {'I': z3.RealVal(1) - z3.RealVal('1/4'), 'X': r[0].t * z3.RealVal('1/4'),
+                 'Y': r[1].t * z3.RealVal('1/4'), 'Z': r[2].t * z3.RealVal('1/4')}
+        return lambda i, s_: base_[s_ if s_ == 'I' else dm[i][s_]]
+    sA, sB = spec_for((rx, ry, rz), dA), spec_for((sx, sy, sz), dB)
+    bad_b, bad_a = [], []
+    for p in ps:
+        if p.exc is not None:
+            r, m, dt = col.solve(eng.base + p.pc)
+            col.record('C07/cache/no-exception', r, dt, True, None, f'{type(p.exc).__name__}: {p.exc}')
+            continue
+        snap, db, da, da2 = p.value
+        d1, d2, d3 = [], [], []
+        for k_, s_ in enumerate('IXYZ'):
+            for i in range(n):
+                d1.append(z3.simplify(term_of(db[k_][i], 'real') - sB(i, s_), som=True) != 0)
+                d2.append(z3.simplify(term_of(da[k_][i], 'real') - sA(i, s_), som=True) != 0)
+                d2.append(z3.simplify(term_of(da2[k_][i], 'real') - sA(i, s_), som=True) != 0)
+                d2.append(z3.simplify(term_of(snap[k_][i], 'real') - sA(i, s_), som=True) != 0)
+        bad_b.append(z3_and(p.pc + [z3_or(d1)]))
+        bad_a.append(z3_and(p.pc + [z3_or(d2)]))
+    w = lambda m: {str(v.t): str(model_frac(m, v.t)) for v in (rx, ry, sx, sy)}
+    col.prove('C07/cache/second-model-gets-its-own-distribution', eng.base, z3_or(bad_b), w,
+              'model B (other direction / axis / undeformed) after model A on the same code and rate; all directions')
+    col.prove('C07/cache/first-model-distribution-unchanged-by-later-use', eng.base, z3_or(bad_a), w)
+    return col.result()
+
+
 def worker(cfg, tier='quick'):
-    return {'dist': w_dist, 'fast_choice': w_fast_choice, 'generate': w_generate, 'extremes': w_extremes,
+    return {'cache': w_cache, 'dist': w_dist, 'fast_choice': w_fast_choice, 'generate': w_generate, 'extremes': w_extremes,
             'weights': w_weights, 'bposd': w_bposd}[cfg.split()[0]](cfg, tier)
 
 
@@ -465,6 +540,33 @@ def replay(path):
                         bad = True
                 if abs(sum(dist[s][i] for s in 'IXYZ') - 1) > 1e-12:
                     bad = True
+        elif cfg.startswith('cache'):
+            import panqec.codes as pc
+            parts = cfg.split(' ')
+            cls_name, size, name, axis = common.parse_cfg(parts[1])
+            axis2 = parts[2]
+            kwA = {'deformation_axis': axis} if axis else {}
+            kwB = {'deformation_axis': axis2} if axis2 not in ('-', 'none') else {}
+            nameB = name if axis2 != 'none' else None
+            vals = {k: float(Fraction(v)) for k, v in w.items()}
+            ra = (vals['rx'], vals['ry'], 1 - vals['rx'] - vals['ry'])
+            cands = [(vals['sx'], vals['sy'], 1 - vals['sx'] - vals['sy']), ra,
+                     (ra[0] + 1e-6 if ra[0] < 0.5 else ra[0] - 1e-6, ra[1], 1 - ra[1] - (ra[0] + 1e-6 if ra[0] < 0.5 else ra[0] - 1e-6))]
+            for rb in cands:       # the counterexample region is "B differs from A"; several concretisations
+                code = getattr(pc, cls_name)(*size)
+                A = pem.PauliErrorModel(*ra, deformation_name=name, deformation_kwargs=kwA)
+                B = pem.PauliErrorModel(*rb, deformation_name=nameB, deformation_kwargs=kwB)
+                A.probability_distribution(code, 0.25)
+                db = dict(zip('IXYZ', B.probability_distribution(code, 0.25)))
+                spec = {'I': 0.75, 'X': rb[0] * 0.25, 'Y': rb[1] * 0.25, 'Z': rb[2] * 0.25}
+                for i, qloc in enumerate(code.qubit_coordinates):
+                    dm = code.get_deformation(qloc, nameB, **kwB) if nameB else {s: s for s in 'XYZ'}
+                    for s in 'IXYZ':
+                        if abs(db[s][i] - spec[s if s == 'I' else dm[s]]) > 1e-9:
+                            bad = True
+                print('direction A', ra, 'direction B', rb, '->', 'wrong distribution for B' if bad else 'ok')
+                if bad:
+                    break
         else:
             # generate / weights / bposd counterexamples: re-run the symbolic worker's obligation on the
             # unshimmed code is not possible without the rng / ldpc stubs; re-run the worker itself in this
@@ -488,6 +590,8 @@ def configs(tier):
     if tier != 'quick':
         dist = common.code_configs('quick', deformed=True, max_n=120)
     out += [f'dist {c}' for c in dist]
+    out += ['cache Toric2DCode(2,2)/XZZX/x y', 'cache Toric2DCode(2,2)/XZZX/x x', 'cache Planar2DCode(2,2)/XZZX/y none',
+            'cache Toric3DCode(2,2,2)/XZZX/z x']
     gen = ['RotatedPlanar2DCode(2,2)'] + (['Planar2DCode(2,2)', 'RotatedPlanar2DCode(2,3)'] if tier != 'quick' else [])
     out += [f'generate {c}' for c in gen]
     out += ['extremes RotatedPlanar2DCode(2,2)/XZZX/x', 'extremes Planar2DCode(2,2)/XY']
